@@ -317,4 +317,13 @@ def ccT13 : GoNode :=
   .capture 0 (-1) (.concat [.char opOne true false 100,
     .loop false 1 maxInt32 (.alt [.multi true false [97, 98], .char opOne true false 99])])
 
+/-- `a+b` under RightToLeft: stored `b`, then the loop -/
+def ccT14 : GoNode :=
+  .capture 0 (-1) (.concat [.char opOne true false 98, .charloop opOneloop true false 97 1 maxInt32])
+
+/-- `(?<=ca*?)b`: the body of the lookbehind is stored reversed -/
+def ccT15 : GoNode :=
+  .capture 0 (-1) (.concat [.poslook (.concat [.charloop opOnelazy true false 97 0 maxInt32, .char opOne true false 99]),
+    .char opOne false false 98])
+
 end RegexVerif.Compile
